@@ -403,3 +403,36 @@ Theorem C20_breakdown_constants :
 Proof. exact ConnectProofs.bd_constants. Qed.
 Print Assumptions C20_breakdown_constants.
 (* ==== end of block (unit connect) ==== *)
+
+(* ==== breakdown muxes composed with the generated mux.c (units connect + muxc) ==== *)
+(* The mux_init calls of nosv/breakdown.c (mux0 with select_tr, mux1 with select_idle) go through the primitive
+   ConnectPre.mux_init, whose meaning is DERIVED from the generated mux_init of mux.c (Gen/MuxInit_gen.v), for every connect
+   state: run the generated function on a fresh struct mux next to the bay, commit the struct read as a BayDefs mux record at
+   the end of the mux table, remember its id for (nosv_cpu a, w); select_tr / select_idle are read as BayBreakdownDefs.g_tr /
+   g_idle.  mux_set_input / bay_register: C06_connect_mux_set_input_composed, C06_connect_bay_register_composed (they do not
+   depend on which object owns the mux).  C20_breakdown_wiring_from_source_partial stays PARTIAL: it is a computation for the
+   listed families; the induction over CPUs / threads is missing, and chan_init / prv_register stay hand-written primitives. *)
+From OV Require Emu.MuxInitPre Gen.MuxInit_gen Proofs.MuxInitProofs Proofs.ConnectComposeProofs.
+
+Theorem C20_breakdown_mux_init_composed : forall sx st a w s u f (n : Z) si ui,
+  ConnectComposeProofs.Reg st -> ConnectPre.cn_alloc_ok sx = true -> (0 <= n < 2 ^ 64)%Z ->
+  ConnectPre.id_of st s = Some si -> ConnectPre.id_of st u = Some ui ->
+  ConnectPre.mux_init (Some (ConnectPre.MBd a w)) (Some tt) (Some s) (Some u) f n sx st =
+  match MuxInit_gen.mux_init (Some tt) (Some tt) (Some si) (Some ui) (ConnectComposeProofs.fn_of f) n
+          (ConnectComposeProofs.menv_of sx (length (BayDefs.b_muxes (ConnectPre.cs_bay st)))) (ConnectComposeProofs.fresh st) with
+  | EmuCoreDefs.Ok (_, ms) =>
+    EmuCoreDefs.Ok (tt, ConnectPre.with_bd (ConnectPre.with_bay st (ConnectComposeProofs.commit sx ms))
+                          (((a, w), length (BayDefs.b_muxes (ConnectPre.cs_bay st))) :: ConnectPre.cs_bd st))
+  | EmuCoreDefs.Err e => EmuCoreDefs.Err (ConnectComposeProofs.err_of e)
+  end.
+Proof. exact ConnectComposeProofs.mux_init_composed_bd. Qed.
+Print Assumptions C20_breakdown_mux_init_composed.
+
+Theorem C20_breakdown_select_functions_composed : forall sx,
+  MuxInitProofs.fun_of (ConnectComposeProofs.fn_of ConnectPre.fn_select_tr) (ConnectComposeProofs.custom_of sx) =
+    BayDefs.SelCustom (BayBreakdownDefs.g_tr (ConnectPre.cn_body sx)) /\
+  MuxInitProofs.fun_of (ConnectComposeProofs.fn_of ConnectPre.fn_select_idle) (ConnectComposeProofs.custom_of sx) =
+    BayDefs.SelCustom (BayBreakdownDefs.g_idle (ConnectPre.cn_prog sx)).
+Proof. exact ConnectComposeProofs.custom_select. Qed.
+Print Assumptions C20_breakdown_select_functions_composed.
+(* ==== end of block (breakdown composed) ==== *)
